@@ -95,8 +95,23 @@ def loop_item_index(ctx, m):
     f = m.fn("Qentem::TemplateCore::renderLoop")
     ctx.note_fn(f)
     subs = [i for i in astq.nodes_of(f, "ArraySubscriptExpr") if f.text(f.nodes[i]["ch"][0]) == "loops_items_->Storage()"]
-    grow_loops = [w for w in astq.nodes_of(f, ("WhileStmt",)) if f.text(f.nodes[w]["cond"]).replace(" ", "").replace("(", "").replace(")", "") == "loops_items_->Size<=tag.Level"]
-    grow_ifs = [w for w in astq.nodes_of(f, ("IfStmt",)) if f.text(f.nodes[w]["cond"]).replace(" ", "").replace("(", "").replace(")", "") == "loops_items_->Size<=tag.Level"]
+    def not_yet_room(cond):
+        """the condition says Size() <= Level (in either operand order, or as the negation of Size() > Level)"""
+        n = f.nodes[f.strip(cond)]
+        neg = False
+        while n["k"] == "UnaryOperator" and n["op"] == "!":
+            neg = not neg
+            n = f.nodes[f.strip(n["ch"][0])]
+        if n["k"] != "BinaryOperator" or n["op"] not in ("<", "<=", ">", ">="):
+            return False
+        a, b, op = f.text(f.strip_casts(n["ch"][0])).replace(" ", ""), f.text(f.strip_casts(n["ch"][1])).replace(" ", ""), n["op"]
+        if op in (">", ">="):
+            a, b, op = b, a, {">": "<", ">=": "<="}[op]
+        if neg:   # !(x < y) == y <= x ; !(x <= y) == y < x
+            a, b, op = b, a, {"<": "<=", "<=": "<"}[op]
+        return (a, op, b) == ("loops_items_->Size()", "<=", "tag.Level")
+    grow_loops = [w for w in astq.nodes_of(f, ("WhileStmt",)) if not_yet_room(f.nodes[w]["cond"])]
+    grow_ifs = [w for w in astq.nodes_of(f, ("IfStmt",)) if not_yet_room(f.nodes[w]["cond"])]
     resize_calls = [c for c in astq.calls(f, "ResizeAndInitialize") if "tag.Level" in f.text(c)]
     for s_ in subs:
         idx = f.text(f.nodes[s_]["ch"][1])
